@@ -5,33 +5,413 @@ from fractions import Fraction
 
 import numpy as np
 
+import copy
+import math
+import warnings
+
 from .. import gen1
-from ..core import rs
+from ..core import nrs, rs
 from .base1 import Hist1Prop
+
+# Two of every STREAM_EVERY case indices come from the streams below; the other indices keep the older generator
+# (N_QUICK / N_THOROUGH were raised by 10/8 so that the older streams keep their number of cases).
+STREAM_EVERY, WIDE_SLOT, LAYOUT_SLOT = 10, 3, 7
+
+
+# ------------------------------------------------------------------------------------------ memory layouts
+# The same LOGICAL array (same shape, same element at every index) in another memory layout.  h1 pairs values and weights
+# by position (logical index), so none of these may change the result.
+LAYOUTS_1D = ["strided", "rev"]
+LAYOUTS_2D = ["F", "T", "pandas", "strided", "strided0", "F_strided", "rev", "rev_last", "rev_F"]
+LAYOUTS_3D = ["F", "T", "perm", "perm", "perm", "strided", "strided0", "F_strided", "rev", "rev_last", "rev_F"]
+PERMS_3D = [[1, 0, 2], [0, 2, 1], [2, 0, 1], [1, 2, 0], [2, 1, 0]]
+
+
+def layouts_for(ndim):
+    return {1: LAYOUTS_1D, 2: LAYOUTS_2D}.get(ndim, LAYOUTS_3D)
+
+
+def relayout(a, name, perm=None):
+    """`a` (an ndarray) re-laid in memory; the logical content is asserted to be the same"""
+    if not isinstance(a, np.ndarray) or a.ndim == 0 or name in (None, "C"):
+        return a
+    junk = a.dtype.type(77)
+    if name == "F":
+        r = np.asfortranarray(a)
+    elif name == "T":                       # a transposed view of a C-contiguous buffer
+        r = np.ascontiguousarray(a.T).T
+    elif name == "perm":                    # axes stored in another order (a view obtained by transpose)
+        p = list(perm) if perm is not None and sorted(perm) == list(range(a.ndim)) else list(range(a.ndim))[::-1]
+        r = np.ascontiguousarray(a.transpose(p)).transpose([p.index(i) for i in range(a.ndim)])
+    elif name == "strided":                 # every other element of a larger buffer (last axis)
+        buf = np.full(a.shape[:-1] + (2 * a.shape[-1] + 1,), junk, dtype=a.dtype)
+        r = buf[..., 1::2]
+        r[...] = a
+    elif name == "strided0":                # every other row of a larger buffer (first axis)
+        buf = np.full((2 * a.shape[0] + 1,) + a.shape[1:], junk, dtype=a.dtype)
+        r = buf[1::2]
+        r[...] = a
+    elif name == "F_strided":               # the same inside a Fortran-ordered buffer
+        buf = np.full((2 * a.shape[0] + 1,) + a.shape[1:], junk, dtype=a.dtype, order="F")
+        r = buf[1::2]
+        r[...] = a
+    elif name == "rev":                     # negative stride along the first axis
+        r = np.ascontiguousarray(a[::-1])[::-1]
+    elif name == "rev_last":                # negative stride along the last axis
+        r = np.ascontiguousarray(a[..., ::-1])[..., ::-1]
+    elif name == "rev_F":                   # Fortran order and a negative stride
+        r = np.asfortranarray(a[::-1])[::-1]
+    elif name == "pandas":                  # what DataFrame.to_numpy() hands out for a table built column by column
+        if a.ndim != 2:
+            r = np.asfortranarray(a)
+        else:
+            import pandas as pd
+            r = pd.DataFrame({f"c{j}": a[:, j] for j in range(a.shape[1])}).to_numpy()
+    elif name == "bcast0":                  # one row broadcast along the first axis (stride 0), when all rows are equal
+        if a.ndim >= 2 and a.shape[0] >= 1 and np.array_equal(np.broadcast_to(a[0], a.shape), a, equal_nan=True):
+            r = np.broadcast_to(a[0], a.shape)
+        else:
+            r = a
+    else:
+        raise KeyError(name)
+    assert r.shape == a.shape and r.dtype == a.dtype and np.array_equal(r, a, equal_nan=a.dtype.kind == "f"), name
+    return r
+
+
+def _describe(x):
+    """what the caller holds before the call: an independent copy in logical (C) order and the array's own description"""
+    if isinstance(x, np.ndarray):
+        return {"copy": np.array(x, order="C", copy=True), "shape": x.shape, "strides": x.strides, "dtype": str(x.dtype),
+                "writeable": bool(x.flags.writeable)}
+    return {"copy": copy.deepcopy(x)}
+
+
+def _changed(x, d, what):
+    out = []
+    if isinstance(x, np.ndarray):
+        if x.shape != d["shape"] or x.strides != d["strides"] or str(x.dtype) != d["dtype"] or bool(x.flags.writeable) != d["writeable"]:
+            out.append(f"{what}: shape/strides/dtype/flags {d['shape']}/{d['strides']}/{d['dtype']} -> {x.shape}/{x.strides}/{x.dtype}")
+        elif not np.array_equal(x, d["copy"], equal_nan=x.dtype.kind == "f"):
+            out.append(f"{what}: content {d['copy'].flatten().tolist()} -> {np.array(x).flatten().tolist()}")
+    elif x != d["copy"] and not (x is None and d["copy"] is None):
+        if json_nan_eq(x, d["copy"]):
+            return out
+        out.append(f"{what}: {d['copy']} -> {x}")
+    return out
+
+
+def json_nan_eq(a, b):
+    """equality of nested lists of floats in which NaN equals NaN"""
+    if isinstance(a, list) and isinstance(b, list):
+        return len(a) == len(b) and all(json_nan_eq(x, y) for x, y in zip(a, b))
+    if isinstance(a, float) and isinstance(b, float) and math.isnan(a) and math.isnan(b):
+        return True
+    return a == b
+
+
+def _flat(d):
+    """the logical (C order) sequence of elements of the copy taken before the call, as exact rationals (None = NaN)"""
+    c = d["copy"]
+    if c is None:
+        return None
+    a = c if isinstance(c, np.ndarray) else np.array(c, dtype=float)
+    return [nrs(x) for x in a.flatten()]
+
+
+# ------------------------------------------------------------------------------------------ wide weights
+WIDE_PROFILES = ["descending", "descending", "descending", "ascending", "ascending", "random", "alternating", "alternating",
+                 "one_huge", "one_huge", "huge_outside", "tiny_outside"]
+WIDE_RANGES = [(0, 60, 6), (0, 60, 6), (0, 30, 3), (0, 30, 3), (-60, 60, 8), (-30, 30, 4), (-300, 300, 40)]    # (lo, hi, near) exponents of 2
+
+
+def _v2(f: Fraction) -> int:
+    """exponent of the lowest set bit of a non-zero dyadic rational"""
+    n, d = abs(f.numerator), f.denominator
+    assert n and d & (d - 1) == 0, f
+    return (n & -n).bit_length() - 1 - (d.bit_length() - 1)
+
+
+def summable(ws, integer=False) -> bool:
+    """every partial sum of the numbers (any order, any grouping) and of their squares is an exactly representable double
+    (and inside int64 for integer weights): all are multiples of 2^a and the absolute values add up to < 2^(a+53)"""
+    ws = [Fraction(w) for w in ws if Fraction(w) != 0]
+    if not ws:
+        return True
+    for xs in (ws, [w * w for w in ws]):
+        a = min(_v2(x) for x in xs)
+        tot = sum(abs(x) for x in xs)
+        if tot >= Fraction(2) ** (a + 53) or (integer and tot >= 2 ** 63):
+            return False
+        if any(abs(x) >= Fraction(2) ** 1000 or abs(x) < Fraction(1, 2 ** 1000) for x in xs):
+            return False
+    return True
+
+
+def place_of(pairs, v):
+    """where a value goes in rising bins given as Fractions: -1 below the first edge, i = bin i, i + 1/2 = the gap after bin i,
+    n above the last edge, None for NaN"""
+    if v is None:
+        return None
+    n = len(pairs)
+    if v < pairs[0][0]:
+        return Fraction(-1)
+    if v > pairs[-1][1]:
+        return Fraction(n)
+    for i, (l, r) in enumerate(pairs):
+        if l <= v and (v < r or (i == n - 1 and v == r)):
+            return Fraction(i)
+    for i in range(n - 1):
+        if pairs[i][1] <= v < pairs[i + 1][0]:
+            return Fraction(2 * i + 1, 2)
+    raise AssertionError((pairs, v))
+
+
+def wide_weights(rng, places, kind, profile, nbins):
+    """one non-negative weight per entry.  Every place (bin / underflow / overflow / gap) gets a magnitude (a power of two) of
+    its own and the magnitudes of different places differ by many orders; within one place the weights are small multiples of
+    that power of two, so every sum over a subset of them and of their squares is exact in double (int64) arithmetic in any
+    order.  The profile says how the magnitudes run along the data axis."""
+    present = sorted({p for p in places if p is not None})
+    lo, hi, near = (0, 25, 3) if kind == "int" else (0, 27, 3) if kind == "int_any" else rng.choice(WIDE_RANGES)
+    big = lambda: rng.randint(hi - near, hi)
+    small = lambda: rng.randint(lo, lo + near)
+    m = len(present)
+    outside = (Fraction(-1), Fraction(nbins))
+    if m == 0:
+        ex = []
+    elif profile in ("descending", "ascending"):
+        ex = sorted([rng.randint(lo, hi) for _ in range(m)], reverse=True)
+        if m >= 2:
+            ex[0], ex[-1] = big(), small()
+        if profile == "ascending":
+            ex.reverse()
+    elif profile == "alternating":
+        first = rng.random() < 0.7
+        ex = [big() if (j % 2 == 0) == first else small() for j in range(m)]
+    elif profile == "one_huge":
+        t = small()
+        ex = [t] * m
+        ex[rng.randrange(m) if rng.random() < 0.5 else 0] = big()
+    elif profile in ("huge_outside", "tiny_outside"):
+        out_e, in_e = (big, small) if profile == "huge_outside" else (small, big)
+        ex = [out_e() if p in outside else in_e() for p in present]
+    else:
+        ex = [rng.randint(lo, hi) for _ in range(m)]
+    exp_of = dict(zip(present, ex))
+    ws = []
+    for p in places:
+        e = exp_of.get(p, 0)
+        if kind == "int_any":
+            # any integer below 2^(e+1): int64 sums of weights and of squares are exact whatever the bits (no double on the way)
+            ws.append(Fraction(rng.randint(2 ** e // 2, 2 ** (e + 1) - 1) if rng.random() > 0.06 else 0))
+            continue
+        if kind == "int":
+            mant = rng.choice([1, 1, 2, 3, 4])
+        else:
+            mant = rng.choice([1, 1, 1, 2, 3, 5, 6, 7]) * 2 ** rng.choice([0, 0, 0, 1, 2, 5])
+        if rng.random() < 0.06:
+            mant = 0
+        ws.append(Fraction(mant) * Fraction(2) ** e)
+    for p in present:
+        mine = [w for w, q in zip(ws, places) if q == p]
+        if kind == "int_any":
+            assert sum(w * w for w in mine) < 2 ** 63 and sum(mine) < 2 ** 53, (p, ws)
+        else:
+            assert summable(mine, integer=(kind == "int")), (p, ws)
+    return ws
 
 
 class C01(Hist1Prop):
     ID = "C01"
-    N_QUICK = 500
-    N_THOROUGH = 20000
+    N_QUICK = 625
+    N_THOROUGH = 25000
     RULE = ("h1() calls generated from rising bin sets (regular/irregular/gapped/tiny-gap/single bin; as edges, "
             "pairs, Static/Numpy/FixedWidth binning objects, or a method name whose reported bins are then used) x data "
             "(sizes 0-40, values on / one ulp beside every edge, in gaps, far outside, duplicates, NaN; 0-D..3-D shapes) "
             "x weights (absent, int, dyadic float, all-equal non-unit, zeros, float32) x dtype x keep_missed x dropna, "
             "plus a malformed stream (wrong weight shape, non-rising / zero-width / no bins, int dtype with float weights). "
+            "every 10th case (stream:wide_weights): float64 weights that are powers of two (2^0..2^60, 2^0..2^30, 2^-60..2^60, "
+            "2^-300..2^300) times small integers, or int64 weights up to 2^27 (also arbitrary integers below 2^28 whose squares need more than 53 bits), whose magnitudes differ by many orders between "
+            "the bins / underflow / overflow / gaps of ONE h1() call (heavy left of light, light left of heavy, alternating, one "
+            "huge, huge or tiny outside the bins) while every per-bin sum of weights and of squared weights is exactly "
+            "representable: contents, errors2, underflow, overflow must equal the exact rational sums. "
+            "every 10th case (stream:layouts): 1-D / 2-D / 3-D data that are not C-contiguous (Fortran order, transposed and "
+            "axis-permuted views, strided and reversed views, inside Fortran buffers, DataFrame.to_numpy(), read-only) with "
+            "non-uniform weights of the same shape in C order / the same layout / another layout / broadcast rows, dropna "
+            "on and off, NaN present or not: the result must be that of the logical (C order) sequences of values and weights. "
+            "In every case the oracle reads the values and weights from copies taken before the call and the caller's arrays "
+            "must be unchanged after it. An exhaustive grid (layout x weights layout x dropna on 3x2 and 2x3x2 arrays; heavy "
+            "weight in every place x 2^60 / 2^30 / int) is run on every seed. "
             "non-trivial = at least one value lands inside a bin; distinct = hash of the canonical op list")
     FIELDS = {"bins", "freq", "err2", "under", "over", "total", "dtype", "keep"}
     ASSUMPTIONS = ["weights are small dyadic numbers so every partial sum is exact in binary64 (bit-exact stream)",
+                   "stream:wide_weights: sums WITHIN one bin / underflow / overflow are exact in any order (summable()); the "
+                   "float sum ACROSS bins (`total`) is rounded and therefore not compared there",
                    "is_consecutive uses allclose in the code and exact equality in the model: for gaps below the "
                    "tolerance (tag tiny_gap) underflow/overflow are not compared"]
 
     def fields_for(self, case):
+        f = self.FIELDS
+        if "wide:float" in case.get("tags", []):
+            # `total` adds the bin contents ACROSS bins in floating point: with contents of widely different magnitudes that
+            # sum is rounded (the exact model's is not); the property is about the contents
+            f = f - {"total"}
         if "tiny_gap" in case.get("tags", []):
-            return self.FIELDS - {"under", "over"}
-        return self.FIELDS
+            return f - {"under", "over"}
+        return f
 
     # ------------------------------------------------------------------ generation
     def gen_case(self, rng, k, tier):
+        if k % STREAM_EVERY == WIDE_SLOT:
+            return self.gen_wide(rng)
+        if k % STREAM_EVERY == LAYOUT_SLOT:
+            return self.gen_layout(rng)
+        return self.gen_main(rng, k, tier)
+
+    # ---- weights of widely different magnitudes whose per-bin sums are exact
+    def gen_wide(self, rng):
+        kind = rng.choice(["float", "float", "float", "float", "int", "int_any"])
+        profile = rng.choice(WIDE_PROFILES)
+        pairs, t = gen1.rising_bins(rng, allow_gaps=rng.random() < 0.4)
+        tags = [x for x in ("gapped", "tiny_gap") if t[x]]
+        # explicit bins only (the reported bins must be the requested ones, so the places of the values are known here)
+        b = gen1.binning_json(pairs, rng=rng)
+        n = rng.choice([2, 3, 5, 8, 12, 20, 40])
+        vals = gen1.values_for(rng, pairs, n, nan_share=rng.choice([0, 0, 0.1]))
+        lo, hi = pairs[0][0], pairs[-1][1]
+        inside = lambda p: p[0] + (p[1] - p[0]) * rng.choice([0.0, 0.25, 0.5])
+        if profile in ("huge_outside", "tiny_outside"):
+            # something below, something above and something inside the bins
+            vals[:0] = [lo - rng.choice([0.25, 1.0]), hi + rng.choice([0.25, 1.0]), inside(rng.choice(pairs))]
+        elif rng.random() < 0.7:
+            # the first and the last bin (or a bin and the overflow) are hit
+            vals[:0] = [inside(pairs[0]), inside(pairs[-1]) if len(pairs) > 1 else hi + 0.25]
+        order = rng.choice(["shuffled", "shuffled", "ascending", "descending"])
+        if order == "shuffled":
+            rng.shuffle(vals)
+        else:
+            vals.sort(key=lambda v: (v is None, v or 0.0), reverse=order == "descending")
+        vals = gen1.enc_vals(vals)
+        fp = [(Fraction(l), Fraction(r)) for l, r in b["bins"]]
+        places = [place_of(fp, None if v is None else Fraction(v)) for v in vals]
+        ws = wide_weights(rng, places, kind, profile, len(fp))
+        op = {"op": "construct", "out": 0, "binning": b, "data": vals, "weights": [rs(w) for w in ws],
+              "wkind": "float64" if kind == "float" else "int64"}
+        if rng.random() < 0.15:
+            op["container"] = "list"
+        op["keep"] = rng.random() < 0.85
+        op["dropna"] = rng.random() < 0.9
+        # (int_any: squared weights beyond 2^53 are exact in an int64 histogram only)
+        op["dtype"] = rng.choice({"float": [None, None, None, "float64"], "int": [None, None, None, "int64", "float64"],
+                                  "int_any": [None, None, "int64"]}[kind])
+        return {"kind": "hist1", "ops": [op],
+                "tags": tags + ["stream:wide_weights", f"wide:{kind}", f"wide_profile:{profile}", f"wide_order:{order}"]}
+
+    # ---- memory layouts of the data and of the weights
+    def _stream_bins(self, rng, tags):
+        if rng.random() < 0.2:
+            w = rng.choice([1.0, 0.5, 0.25, 2.0])
+            tmin, cnt = rng.randint(-4, 4), rng.randint(1, 5)
+            tags.append("fixed_width_obj")
+            return gen1.fixed_json(w, tmin, cnt), [[(tmin + i) * w, (tmin + i + 1) * w] for i in range(cnt)]
+        pairs, t = gen1.rising_bins(rng, allow_gaps=rng.random() < 0.5)
+        tags += [x for x in ("gapped", "tiny_gap") if t[x]]
+        return gen1.binning_json(pairs, rng=rng), pairs
+
+    def gen_layout(self, rng):
+        tags = ["stream:layouts"]
+        b, pairs = self._stream_bins(rng, tags)
+        r = rng.random()
+        if r < 0.1:
+            shape = [rng.choice([3, 5, 8, 12])]
+        elif r < 0.6:
+            shape = [rng.choice([1, 2, 2, 3, 4, 5, 6]), rng.choice([1, 2, 2, 3, 4, 5])]
+        else:
+            shape = [rng.choice([1, 2, 2, 3, 4]) for _ in range(3)]
+        n = 1
+        for d in shape:
+            n *= d
+        dropna = rng.random() < 0.5
+        nan_share = rng.choice([0, 0, 0.15]) if dropna else rng.choice([0] * 7 + [0.1])
+        vals = gen1.values_for(rng, pairs, n, nan_share=nan_share)
+        wkind = rng.choice(["dyadic"] * 4 + ["int"] * 2 + ["f32", "rows", "other", "other"])
+        if wkind == "dyadic":
+            ws, wk = [rng.randint(1, 64) / 4 for _ in range(n)], "float64"
+        elif wkind == "int":
+            ws, wk = [rng.randint(0, 50) for _ in range(n)], "int64"
+        elif wkind == "f32":
+            ws, wk = [rng.randint(0, 32) / 8 for _ in range(n)], "float32"
+        elif wkind == "rows" and len(shape) >= 2:
+            row = [rng.randint(1, 64) / 4 for _ in range(n // shape[0])]       # the same weights for every row (first axis)
+            ws, wk = row * shape[0], "float64"
+        else:
+            ws, wk = gen1.weights_for(rng, n)
+        nd = len(shape)
+        dl = rng.choice(layouts_for(nd)) if rng.random() < 0.88 else "C"
+        r = rng.random()
+        if wkind == "rows" and nd >= 2 and r < 0.6:
+            wl = "bcast0"
+        elif r < 0.35:
+            wl = "C"
+        elif r < 0.7:
+            wl = dl
+        else:
+            wl = rng.choice(layouts_for(nd))
+        op = {"op": "construct", "out": 0, "binning": b, "data": gen1.enc_vals(vals),
+              "weights": None if ws is None else [rs(w) for w in ws], "wkind": wk, "dlayout": dl, "wlayout": wl}
+        if nd >= 2:
+            op["shape"] = shape
+        if nd == 3:
+            op["dperm"] = rng.choice(PERMS_3D)
+            op["wperm"] = op["dperm"] if (wl == dl and rng.random() < 0.7) else rng.choice(PERMS_3D)
+        if rng.random() < 0.15:
+            op["frozen"] = True
+            tags.append("layout:read_only")
+        op["keep"] = rng.random() < 0.8
+        op["dropna"] = dropna
+        op["dtype"] = rng.choice([None] * 9 + ["float64"])
+        tags += [f"layout_ndim:{nd}", "layout_dropna:" + ("on" if dropna else "off")]
+        return {"kind": "hist1", "ops": [op], "tags": tags}
+
+    # ---- the cases run on every seed: a grid over the layouts, and a heavy weight in every place
+    def exhaustive_cases(self, tier):
+        out = []
+        edges = gen1.binning_json([[0.0, 1.0], [1.0, 2.0], [2.0, 3.0]], form="edges")
+        base = {"op": "construct", "out": 0, "binning": edges, "keep": True, "dtype": None, "wkind": "float64"}
+        grids = [([3, 2], [0.5, 2.5, 1.5, -0.5, 2.6, 3.5], [1, 2, 3.5, 4, 5.25, 6]),
+                 ([2, 3, 2], [0.5, 2.5, 1.5, -0.5, 2.6, 3.5, 1.0, 3.0, 0.25, 2.25, 1.75, 0.0],
+                  [1, 2, 3.5, 4, 5.25, 6, 7, 8.5, 9, 10, 11.75, 12])]
+        for shape, vals, ws in grids:
+            nd = len(shape)
+            combos = [(dl, None) for dl in sorted(set(layouts_for(nd)) - {"perm"})] + \
+                     ([("perm", p) for p in PERMS_3D] if nd == 3 else [])
+            for dl, perm in combos:
+                for wl in ("C", dl, "F"):
+                    for dropna in (True, False):
+                        op = dict(base, data=gen1.enc_vals(vals), weights=[rs(w) for w in ws], shape=shape, dlayout=dl,
+                                  wlayout=wl, dropna=dropna)
+                        if perm:
+                            op["dperm"] = op["wperm"] = perm
+                        out.append({"kind": "hist1", "ops": [op], "tags": ["grid:layouts"]})
+        spots = [-1.0, 0.5, 1.5, 2.5, 4.0]                     # underflow, the three bins, overflow
+        light = [0.25, 0.75, 1.25, 1.5, 2.25, -0.5, 3.5]
+        for heavy, wk in ((2 ** 60, "float64"), (2 ** 30, "float64"), (3 * 2 ** 27, "int64")):
+            for spot in spots:
+                for order in ("ascending", "descending"):
+                    fp = [(Fraction(l), Fraction(r)) for l, r in edges["bins"]]
+                    where = lambda v: place_of(fp, Fraction(v))
+                    pts = [(spot, heavy)] + [(v, j + 1) for j, v in enumerate(light) if where(v) != where(spot)]
+                    for q in {where(v) for v, _ in pts}:
+                        assert summable([w for v, w in pts if where(v) == q], integer=wk == "int64")
+                    pts.sort(key=lambda p: p[0], reverse=order == "descending")
+                    op = dict(base, data=gen1.enc_vals([p[0] for p in pts]), weights=[rs(p[1]) for p in pts], wkind=wk,
+                              dropna=True)
+                    kind = "float" if wk == "float64" else "int"
+                    out.append({"kind": "hist1", "ops": [op], "tags": ["grid:wide_weights", f"wide:{kind}"]})
+        return out
+
+    # ---- the older streams
+    def gen_main(self, rng, k, tier):
         tags = []
         op = {"op": "construct", "out": 0}
         malformed = rng.random() < 0.12
@@ -123,41 +503,70 @@ class C01(Hist1Prop):
         return {"kind": "hist1", "ops": [op], "tags": tags}
 
     # ------------------------------------------------------------------ implementation / model
-    def run_impl(self, case):
-        op = case["ops"][0]
-        if op.get("binspec"):
-            return self._run_method(case)
-        return super().run_impl(case)
+    @staticmethod
+    def build_inputs(op):
+        """the data and the weights as the caller holds them (container, shape, memory layout, read-only flag)"""
+        from .. import impl1
+        shape = op.get("shape")
+        data = impl1.arr(op["data"], shape=shape)
+        if shape == [] and data.size == 1 and op.get("container") != "list":
+            data = data.reshape(())                 # a 0-d array (as a list: the one-element list; a bare scalar is no array)
+        if op.get("container") == "list":
+            data = data.tolist()
+        w = op.get("weights")
+        if w is not None:
+            wshape = op.get("wshape", shape)
+            w = impl1.arr(w, np.dtype(op.get("wkind") or "float64"), wshape)
+            if wshape == [] and w.size == 1 and op.get("container") != "list":
+                w = w.reshape(())
+        data, w = impl1.memory_order(op, data, w)
+        if op.get("dlayout"):
+            data = relayout(data, op["dlayout"], op.get("dperm"))
+        if op.get("wlayout") and w is not None:
+            w = relayout(w, op["wlayout"], op.get("wperm"))
+        if op.get("frozen"):
+            for x in (data, w):
+                if isinstance(x, np.ndarray):
+                    x.setflags(write=False)
+        return data, w
 
-    def _run_method(self, case):
-        """bins chosen by physt from a method name: run it, report, hand the reported bins to the model"""
-        import warnings
+    def run_impl(self, case):
+        """one h1() call; the values / weights the oracle reasons about are read from copies taken BEFORE the call, and the
+        caller's objects are compared with those copies after it"""
         from .. import impl1
         from physt import h1
         op = case["ops"][0]
-        spec = op["binspec"]
-        data = impl1.arr(op["data"], shape=op.get("shape"))
-        w = op.get("weights")
-        if w is not None:
-            w = impl1.arr(w, np.dtype(op.get("wkind") or "float64"), op.get("wshape", op.get("shape")))
-        data, w = impl1.memory_order(op, data, w)
+        data, w = self.build_inputs(op)
+        before = (_describe(data), _describe(w))
+        seen = {"data": _flat(before[0]), "weights": _flat(before[1])}
+        # the harness's own consistency: what was built is what the case says (logical order)
+        as_f = lambda xs: None if xs is None else [None if x is None else Fraction(x) for x in xs]
+        if as_f(seen["data"]) != as_f(op["data"]) or as_f(seen["weights"]) != as_f(op.get("weights")):
+            raise RuntimeError("harness: the arrays built for the call differ from the case's lists")
+        spec = op.get("binspec")
         kw = {}
-        m = spec["method"]
-        bins = spec["n"] if m == "int" else m
-        if m == "fixed_width":
-            kw["bin_width"] = spec["bin_width"]
-        if m == "quantile":
-            kw["bin_count"] = spec["bin_count"]
         log = []
         try:
             with warnings.catch_warnings():
                 warnings.simplefilter("ignore")
+                if spec:        # bins chosen by physt from a method name: the reported bins are handed to the model
+                    m = spec["method"]
+                    bins = spec["n"] if m == "int" else m
+                    if m == "fixed_width":
+                        kw["bin_width"] = spec["bin_width"]
+                    if m == "quantile":
+                        kw["bin_count"] = spec["bin_count"]
+                else:
+                    bins = impl1.mk_binning(op["binning"])
                 h = h1(data, bins, weights=w, dtype=impl1.np_dtype(op.get("dtype")), keep_missed=op.get("keep", True),
                        dropna=op.get("dropna", True), **kw)
-            return {"outs": [{"ret": "ok", "regs": [impl1.snap1(h)]}], "log": log}
-        except Exception as e:
-            log.append(f"{type(e).__name__}: {e}"[:200])
-            return {"outs": [{"ret": "REFUSED", "regs": []}], "log": log}
+            out = {"ret": "ok", "regs": [impl1.snap1(h)]}
+        except Exception as e:      # a refused call: the exception class is recorded, never compared
+            log.append(f"construct: {type(e).__name__}: {e}"[:200])
+            out = {"ret": "REFUSED", "regs": []}
+        seen["changed"] = _changed(data, before[0], "data") + _changed(w, before[1], "weights")
+        out["_inputs"] = seen
+        return {"outs": [out], "log": log}
 
     def model_case(self, case, io):
         op = case["ops"][0]
@@ -186,6 +595,10 @@ class C01(Hist1Prop):
         float_w = ws is not None and (op.get("wkind") or "").startswith("float")
         int_dt_float_w = dt is not None and dt.startswith("int") and float_w
         must_refuse = bool(malformed) or wshape_bad or int_dt_float_w or (has_nan and not op.get("dropna", True))
+        seen = out.get("_inputs") or {}
+        if seen.get("changed"):
+            fails.append("inputs_changed: the caller's arrays are not what they were before the call: " + "; ".join(seen["changed"])[:400])
+            return fails
         if out["ret"] == "REFUSED":
             if not must_refuse and not op.get("binspec"):
                 fails.append("refused_valid: a valid h1() call was refused: " + "; ".join(io["log"]))
@@ -200,8 +613,11 @@ class C01(Hist1Prop):
             if req != bins:
                 fails.append("bins_changed: reported bins differ from the explicit specification")
                 return fails
-        pts = [(Fraction(v), Fraction(ws[i]) if ws is not None else Fraction(1))
-               for i, v in enumerate(op["data"]) if v is not None]
+        # values and weights paired by position, read from the copies taken before the call (logical order)
+        vs_seen = seen.get("data", op["data"])
+        ws_seen = seen.get("weights", ws)
+        pts = [(Fraction(v), Fraction(ws_seen[i]) if ws_seen is not None else Fraction(1))
+               for i, v in enumerate(vs_seen) if v is not None]
         nb = len(bins)
         for i, (l, r) in enumerate(bins):
             inb = [w for v, w in pts if l <= v and (v < r or (i == nb - 1 and v == r))]
@@ -222,7 +638,8 @@ class C01(Hist1Prop):
                 fails.append(f"underflow: reported {snap['under']}, weight below the first edge is {u}")
             if snap["over"] is None or Fraction(snap["over"]) != o:
                 fails.append(f"overflow: reported {snap['over']}, weight above the last edge is {o}")
-            if snap["under"] is not None and snap["over"] is not None:
+            if snap["under"] is not None and snap["over"] is not None and "wide:float" not in case.get("tags", []):
+                # (`total` is a float sum across bins: rounded when the contents differ by many orders of magnitude)
                 if Fraction(snap["total"]) + Fraction(snap["under"]) + Fraction(snap["over"]) != sum((w for _, w in pts), Fraction(0)):
                     fails.append("accounting: total + underflow + overflow != total input weight")
         elif not tiny:
@@ -231,6 +648,93 @@ class C01(Hist1Prop):
         if snap["_freq_dtype"] != snap["dtype"] or snap["_err2_dtype"] != snap["dtype"]:
             fails.append("dtype: reported dtype differs from the arrays'")
         return fails
+
+    # ------------------------------------------------------------------ shrinking / neighbours
+    @staticmethod
+    def _well_shaped(op):
+        shape = op.get("shape")
+        if not shape or "wshape" in op:
+            return False
+        n = 1
+        for d in shape:
+            n *= d
+        return n == len(op["data"]) and (op.get("weights") is None or len(op["weights"]) == n)
+
+    def shrink_candidates(self, case):
+        op = case["ops"][0]
+        # simpler layouts first, then smaller arrays (a whole slice along one axis, values and weights together)
+        for key, simpler in (("frozen", [None]), ("dlayout", ["C", "F"]), ("wlayout", ["C", "F"]), ("dorder", [None]), ("worder", [None])):
+            for v in simpler:
+                if op.get(key) and op.get(key) != v and not (v == "F" and op.get(key) in ("C", "T", "bcast0")):
+                    c = copy.deepcopy(case)
+                    if v is None:
+                        del c["ops"][0][key]
+                    else:
+                        c["ops"][0][key] = v
+                    yield c
+        if self._well_shaped(op):
+            shape = op["shape"]
+            for ax in range(len(shape)):
+                for i in range(shape[ax]):
+                    if shape[ax] <= 1:
+                        continue
+                    c = copy.deepcopy(case)
+                    o = c["ops"][0]
+                    for key in ("data", "weights"):
+                        if o.get(key) is None:
+                            continue
+                        a = np.empty(len(o[key]), dtype=object)
+                        a[:] = o[key]
+                        o[key] = np.delete(a.reshape(shape), i, axis=ax).flatten().tolist()
+                    o["shape"] = [d - 1 if j == ax else d for j, d in enumerate(shape)]
+                    yield c
+            if all(d == 1 for d in shape[:-1]) or all(d == 1 for d in shape[1:]):
+                c = copy.deepcopy(case)         # a single row / column: the 1-D array
+                o = c["ops"][0]
+                for key in ("shape", "dperm", "wperm"):
+                    o.pop(key, None)
+                for key in ("dlayout", "wlayout"):
+                    if o.get(key) not in (None, "C", "strided", "rev"):
+                        o[key] = "C"
+                yield c
+        yield from super().shrink_candidates(case)
+
+    def neighbours(self, case):
+        """around a case on which model and implementation differ: the same values / weights in the other layouts and with
+        dropna the other way round (NaNs taken out when it is off), in other orders"""
+        op = case["ops"][0]
+        n = len(op["data"])
+        if op.get("weights") is not None and len(op["weights"]) != n:
+            return
+        finite = [i for i, v in enumerate(op["data"]) if v is not None]
+        for order in ("reversed", "ascending", "descending"):
+            if op.get("shape"):
+                break
+            idx = list(range(n))
+            if order == "reversed":
+                idx.reverse()
+            else:
+                idx.sort(key=lambda i: (op["data"][i] is None, Fraction(op["data"][i] or 0)), reverse=order == "descending")
+            c = copy.deepcopy(case)
+            o = c["ops"][0]
+            o["data"] = [op["data"][i] for i in idx]
+            if op.get("weights") is not None:
+                o["weights"] = [op["weights"][i] for i in idx]
+            yield c
+        if self._well_shaped(op) and len(op["shape"]) >= 2:
+            nd = len(op["shape"])
+            for dl in ["C"] + sorted(set(layouts_for(nd))):
+                for wl in ("C", dl):
+                    for dropna in (True, False):
+                        c = copy.deepcopy(case)
+                        o = c["ops"][0]
+                        o.pop("dorder", None); o.pop("worder", None); o.pop("container", None)
+                        o.update(dlayout=dl, wlayout=wl, dropna=dropna)
+                        if not dropna and len(finite) < n:
+                            if not finite:
+                                continue
+                            o["data"] = [v if v is not None else op["data"][finite[0]] for v in op["data"]]
+                        yield c
 
     def nontrivial(self, case, io):
         out = io["outs"][0]
@@ -241,6 +745,10 @@ class C01(Hist1Prop):
         op = case["ops"][0]
         t.append("n:" + str(min(len(op["data"]), 40) // 10 * 10))
         t.append("weights:" + str(op.get("wkind")))
+        if op.get("dlayout"):       # (read off the op, so that they stay right for shrunk cases)
+            dl, wl = op["dlayout"], op.get("wlayout")
+            t.append(f"dlayout:{dl}")
+            t.append("wlayout:" + ("none" if op.get("weights") is None else "same" if (wl == dl and wl != "C") else str(wl)))
         if op.get("binning"):
             t.append("form:" + str(op["binning"].get("form", op["binning"]["t"])))
         return t
